@@ -227,6 +227,11 @@ class Taint:
         return r
 
     def ev_Compare(self, e, env, mod):
+        if len(e.ops) == 1 and isinstance(e.ops[0], (ast.In, ast.NotIn)):
+            c = self.ev(e.comparators[0], env, mod)
+            if c.kind == 'dict':
+                # `k in D`: a fact about the KEYS of the mapping, whatever the values are
+                return join(self.flat(self.ev(e.left, env, mod)), self.flat(c.k) if c.k is not None else CLEAN())
         r = self.flat(self.ev(e.left, env, mod))
         for x in e.comparators:
             r = join(r, self.flat(self.ev(x, env, mod)))
